@@ -40,6 +40,13 @@ namespace bloch::runtime {
         int measure(int q);
         std::string getQasm() const;
         size_t stateSize() const { return m_state.size(); }
+#ifdef BLOCH_VERIF
+        // Read-only views for runtime monitors.
+        const std::vector<std::complex<double>>& verifState() const { return m_state; }
+        int verifQubits() const { return m_qubits; }
+        const std::vector<bool>& verifMeasured() const { return m_measured; }
+        const std::vector<std::string>& verifOps() const { return m_ops; }
+#endif
 
        private:
         int m_qubits = 0;
